@@ -85,7 +85,7 @@ fn single(rt: &tokio::runtime::Runtime, c: &Case) -> Outcome {
     log.finish()
 }
 
-const SIG_EDGE_REVERSAL: &str = "stale memberof after one replicated change set that changes the member lists of two or more groups";
+const SIG_EDGE_REVERSAL: &str = "stale memberof after one replicated change set that changes two or more nodes of the membership graph";
 
 /// (group, member) pairs among live groups
 fn group_edges(entries: &[inv::E]) -> std::collections::BTreeSet<(kanidmd_lib::prelude::Uuid, kanidmd_lib::prelude::Uuid)> {
@@ -108,11 +108,13 @@ fn replicated(rt: &tokio::runtime::Runtime, c: &RCase) -> Outcome {
         let mut applied = 0;
         for (i, s) in c.steps.iter().enumerate() {
             // group -> member edges on the consumer BEFORE a replication step (for the edge-reversal fingerprint)
-            let pre_edges = if let Step::Repl { to, .. } = s {
+            let (pre_edges, pre_live) = if let Step::Repl { to, .. } = s {
                 let mut rtxn = cl.nodes[*to as usize % 2].qs.read().await.expect("read");
-                Some(group_edges(&vf_world::dump::all_entries(&mut rtxn).expect("entries")))
+                let pre = vf_world::dump::all_entries(&mut rtxn).expect("entries");
+                let pl: std::collections::BTreeSet<_> = inv::live(&pre).iter().map(|e| e.get_uuid()).collect();
+                (Some(group_edges(&pre)), Some(pl))
             } else {
-                None
+                (None, None)
             };
             let r = cl.step(s).await;
             let node = match (s, &r) {
@@ -131,11 +133,16 @@ fn replicated(rt: &tokio::runtime::Runtime, c: &RCase) -> Outcome {
                     // Known finding: when ONE replicated change set changes several member lists at once
                     // (e.g. G2 gains a member while G4 drops G2, or G4 -> G2 is replaced by G2 -> G4), the
                     // unchanged members below keep the old transitive membership on the consumer.
-                    // Fingerprint: this replication step changed the member lists of >= 2 groups on the
-                    // consumer, and every discrepancy is a surplus (stale) value, never a missing one.
+                    // Fingerprint: this replication step changed >= 2 membership-graph nodes on the consumer
+                    // (group member lists changed, entries created / deleted / revived), and every discrepancy is a surplus (stale) value, never a missing one.
                     let reversed = pre_edges.as_ref().map(|pre| {
                         let post = group_edges(&entries);
-                        let changed: std::collections::BTreeSet<_> = pre.symmetric_difference(&post).map(|(g, _)| *g).collect();
+                        let mut changed: std::collections::BTreeSet<_> = pre.symmetric_difference(&post).map(|(g, _)| *g).collect();
+                        // entries created / deleted / revived by the same change set count as graph changes too
+                        let post_live: std::collections::BTreeSet<_> = inv::live(&entries).iter().map(|e| e.get_uuid()).collect();
+                        if let Some(pl) = pre_live.as_ref() {
+                            changed.extend(pl.symmetric_difference(&post_live).copied());
+                        }
                         changed.len() >= 2 && inv::memberof_violations(&entries).iter().all(|l| l.contains("missing []"))
                     });
                     let sig = if sig == inv::SIG_MO_MISMATCH && reversed == Some(true) { SIG_EDGE_REVERSAL } else { sig };
